@@ -7,6 +7,7 @@ CONSTANTS
   MaxDrop = 1
   MaxExp = 0
   KnownPad = TRUE
+  NetServe = FALSE
   MinChaos = 0
 VIEW view
 INVARIANT FetcherSane
